@@ -115,6 +115,12 @@ func (h *c03Harness) hook(ev string, args ...interface{}) {
 			r["t"] = t
 		}
 	}
+	if e == "?" || (len(t) > 0 && t[0] == '?') {
+		// an evaluation or task this schedule does not know: a goroutine left over from an earlier schedule
+		// (they can outlive their Eval); its events are not part of this trace
+		h.mu.Unlock()
+		return
+	}
 	switch ev {
 	case "EvalStart":
 		h.evStatus[e] = "busy"
